@@ -27,6 +27,7 @@ func Path() string {
 }
 
 var accessRe = regexp.MustCompile(`^(Read|Write|Previous read|Previous write|Atomic read|Atomic write|Previous atomic read|Previous atomic write) at 0x[0-9a-f]+ by `)
+
 // function names of generic instantiations contain spaces ("pipe[go.shape.struct { A int; B int }]")
 var funcRe = regexp.MustCompile(`^  (\S.*)\(\)\s*$`)
 var fileRe = regexp.MustCompile(`^      (\S+?):(\d+)`)
